@@ -8,10 +8,7 @@ export CARGO_NET_OFFLINE=true
 OUT=OUT/confirm$K.txt
 : > $OUT
 git checkout -q -- . ; rm -rf tests
-FEAT=$(grep -o -- '--features[ =][A-Za-z0-9_,-]*' OUT/demo$K.rs | head -1 | sed 's/--features[ =]//')
-[ -z "$FEAT" ] && FEAT="curve25519,argon2"
-case "$FEAT" in *curve25519*) ;; *) FEAT="$FEAT,curve25519";; esac
-case "$FEAT" in *argon2*) ;; *) FEAT="$FEAT,argon2";; esac
+FEAT="curve25519,argon2"
 echo "features for demo: $FEAT" >> $OUT
 git apply --check OUT/patch$K.diff 2>>$OUT || { echo "RESULT: patch does not apply" >> $OUT; exit 1; }
 git diff --quiet || { echo "RESULT: tree dirty" >> $OUT; exit 1; }
